@@ -334,6 +334,9 @@ func sqlLoad(r *repo, l *loadLog) {
 	if l.err("dolt_branches", err) {
 		return
 	}
+	if r.sqlCtx == nil {
+		return
+	}
 	db := r.sqlCtx.GetCurrentDatabase()
 	if i := strings.Index(db, "/"); i > 0 {
 		db = db[:i]
